@@ -317,6 +317,14 @@ def run_L(cx, job):
                 for rule in ([group], [group, txt(labels2[0])],
                              [[txt(labels2[2])], group]):
                     cx.roundtrip('L', rule, kinds2, True)
+    if job['shard'] == 1 % job['of']:
+        # and-groups of three and four entries over ALL the labels (constants
+        # and the empty string included, at every position), as the only
+        # alternative: the text parser extends an and-expression one operand
+        # at a time, the list parser builds it in one go
+        for k in (3, 4):
+            for p in itertools.product(labels, repeat=k):
+                cx.roundtrip('L', [[txt(x) for x in p]], kinds, True)
     cx.acc.sample('L', rule)
 
 
